@@ -76,7 +76,7 @@ func ref_ThroughPointer(src *Deep) *Flat {
 func (e *Node) ref_Clone() *Node {
 	elem := &Node{Name: e.Name}
 	if e.Sub != nil {
-		elem.Sub = make([]*Node, len(e.Sub))
+		elem.Sub = make([]*Leaf, len(e.Sub))
 		for k := range e.Sub {
 			elem.Sub[k] = e.Sub[k]
 		}
